@@ -57,6 +57,10 @@ def entry_vocab(g):
             terms.append(("param", n))
         elif mir.ty_mentions_buffer(ty) and (ty.startswith("&") or ty.startswith("*")):
             terms.append(("load", ("param", n), ("size",), ("entry", ("M", "size"))))
+        elif "::Drain<" in ty and ty.startswith("&"):
+            # the drain's bookkeeping as the callee finds it (the caller may just have stepped the index iterator)
+            for path in guards._DRAIN_FIELDS:
+                terms.append(("load", ("param", n), path, ("entry", ("M", path[0]))))
     for gen in g.rec.get("generics", []):
         if gen.endswith(":Const"):
             terms.append(("cparam", gen.split(":")[0]))
@@ -95,6 +99,35 @@ def project(caller, b, g, extra_atoms):
     return frozenset(out)
 
 
+def _some_edge_feasible(f, G, b, assumed):
+    """A panic block that several failing tests share (`assert!(a && b)`) only knows, as a block, what all its incoming
+    paths have in common. It is reachable only over one of its incoming edges: judge each edge on the facts of its source
+    plus the edge's own condition."""
+    def incoming(x):
+        out = []
+        for p in f.preds(False).get(x, []):
+            for (s, kind, label) in f.succ_edges(p):
+                if s == x and kind == "normal":
+                    out.append((p, label))
+        return out
+
+    edges = incoming(b)
+    for _ in range(8):  # the message is formatted in a straight line between the shared join and the panic call
+        if len(edges) != 1:
+            break
+        b = edges[0][0]
+        edges = incoming(b)
+    if len(edges) < 2:
+        return True
+    for (p, label) in edges:
+        atoms = set(G.facts_at(p)) | set(G.edge_atoms(p, label)) | set(assumed)
+        if f.term(p)["k"] == "assert":
+            atoms |= set(G.assert_atoms(p))
+        if not guards.Zone(f, atoms).contradiction:
+            return True
+    return False
+
+
 class Reach:
     def __init__(self, prog):
         self.prog = prog
@@ -116,7 +149,7 @@ class Reach:
         res = set()
         for b, label in direct_sites(f):
             Z = G.closure(b, extra_atoms=assumed)
-            if Z.contradiction:
+            if Z.contradiction or not _some_edge_feasible(f, G, b, assumed):
                 self.pruned.append((short, b, short, label))
                 continue
             res.add((short, b, label))
